@@ -49,7 +49,7 @@ pub fn frame_from(t: &mut Tape) -> FrameCfg {
         clamp: t.flag(),
         crop: t.choose(9),
         ec_mode: t.choose(3),
-        pattern: t.choose(3),
+        pattern: t.choose(4),
     }
 }
 
@@ -80,6 +80,8 @@ fn crop_of(k: u32) -> Option<(i32, i32, u32, u32)> {
 
 pub struct Built {
     pub bytes: Vec<u8>,
+    /// the same frames behind an image header that declares 16-bit Modular buffers (only when every sample fits)
+    pub bytes16: Option<Vec<u8>>,
     pub expected: Vec<Vec<Vec<f64>>>,
     pub n_ch: usize,
 }
@@ -146,7 +148,9 @@ pub fn build(c: &Cfg) -> Option<Built> {
                 let maxv = (1i64 << bits[ch]) - 1;
                 Channel::from_fn(fw, fhh, |x, y| {
                     let k = (x * 3 + y * 5 + ch * 7 + i * 11 + fc.pattern as usize * 13) % 4;
-                    let lvl: i64 = if ch == 3 { [255, 128, 0, 255][k] } else { [64, 255, 0, 128][k] };
+                    // pattern 3: colour samples outside the nominal range (negative, above the maximum) - legal in Modular, and
+                    // negative integers must survive every integer -> float conversion of the 16-bit buffers
+                    let lvl: i64 = if ch == 3 { [255, 128, 0, 255][k] } else if fc.pattern == 3 { [-13, 300, 0, -128][k] } else { [64, 255, 0, 128][k] };
                     ((lvl * maxv + 127) / 255) as i32
                 })
             })
@@ -159,7 +163,12 @@ pub fn build(c: &Cfg) -> Option<Built> {
     }
     let expected: Vec<Vec<Vec<f64>>> = composite(&img, &model_frames).into_iter().map(|c| c.planes).collect();
     let bytes = write_codestream(&img, &Sel::default(), &frames_bytes);
-    Some(Built { bytes, expected, n_ch })
+    let bytes16 = (c.alpha_bits <= 12 && c.colour_bits <= 12).then(|| {
+        let mut img16 = img.clone();
+        img16.modular_16bit_buffers = true;
+        write_codestream(&img16, &Sel::default(), &frames_bytes)
+    });
+    Some(Built { bytes, bytes16, expected, n_ch })
 }
 
 fn plane_f64(p: &Plane, bits: u32) -> Vec<f64> {
@@ -177,7 +186,15 @@ pub fn run(c: &Cfg) -> Option<Result<usize, (String, String)>> {
 
 /// Decodes `b.bytes`, renders the keyframes in the given order and compares with `b.expected`.
 pub fn compare(b: &Built, request_order: u32, key: &str, canvas: (usize, usize)) -> Result<usize, (String, String)> {
-    let img = match open(&b.bytes, &DecOpts::default()) {
+    let n = compare_bytes(b, &b.bytes, request_order, key, canvas)?;
+    if let Some(b16) = &b.bytes16 {
+        compare_bytes(b, b16, request_order, &format!("{key}:16bit-buffers"), canvas)?;
+    }
+    Ok(n)
+}
+
+fn compare_bytes(b: &Built, bytes: &[u8], request_order: u32, key: &str, canvas: (usize, usize)) -> Result<usize, (String, String)> {
+    let img = match open(bytes, &DecOpts::default()) {
         Ok(i) => i,
         Err(e) => return Err((format!("decode-error:{}", e.chars().rev().take(30).collect::<String>().chars().rev().collect::<String>()), format!("valid multi-frame stream not decoded: {e}"))),
     };
@@ -250,7 +267,7 @@ pub fn patch_cfg_from(t: &mut Tape) -> PatchCfg {
         ref_slot: [1, 0, 2, 3][t.choose(4) as usize],
         src: t.choose(5),
         target: t.choose(3),
-        second_target: t.choose(3),
+        second_target: t.choose(5),
         colour_mode: [1, 0, 2, 3, 4, 5, 6, 7][t.choose(8) as usize],
         alpha_mode: t.choose(4),
         ec2_mode: t.choose(3),
@@ -260,7 +277,7 @@ pub fn patch_cfg_from(t: &mut Tape) -> PatchCfg {
         crop: t.choose(4),
         frame_blend: t.choose(3),
         ans: t.flag(),
-        pattern: t.choose(3),
+        pattern: t.choose(4),
         request_order: t.choose(2) * 2,
     }
 }
@@ -291,7 +308,7 @@ pub fn build_patch(c: &PatchCfg) -> Option<Built> {
                 let maxv = (1i64 << bits[ch]) - 1;
                 Channel::from_fn(fw, fh, |x, y| {
                     let k = (x * 3 + y * 5 + ch * 7 + i * 11 + c.pattern as usize * 13) % 4;
-                    let lvl: i64 = if ch >= 3 { [255, 128, 0, 64][(k + ch) % 4] } else { [64, 255, 0, 128][k] };
+                    let lvl: i64 = if ch >= 3 { [255, 128, 0, 64][(k + ch) % 4] } else if c.pattern == 3 { [-13, 300, 0, -128][k] } else { [64, 255, 0, 128][k] };
                     ((lvl * maxv + 127) / 255) as i32
                 })
             })
@@ -364,6 +381,9 @@ pub fn build_patch(c: &PatchCfg) -> Option<Built> {
     match c.second_target {
         1 => positions.push((tx - 1, ty + 1)),
         2 => positions.push((tx + 1, ty)),
+        // three and four targets: every position after the first is coded as a delta from the one before it
+        3 => positions.extend([(tx + 1, ty), (tx + 1, ty + 1)]),
+        4 => positions.extend([(tx - 1, ty + 1), (tx, ty + 1), (tx + 1, ty)]),
         _ => {}
     }
     for &(x, y) in &positions {
@@ -400,7 +420,12 @@ pub fn build_patch(c: &PatchCfg) -> Option<Built> {
     let _ = (rw, rh);
     let expected: Vec<Vec<Vec<f64>>> = composite(&img, &model_frames).into_iter().map(|c| c.planes).collect();
     let bytes = write_codestream(&img, &Sel::default(), &frames_bytes);
-    Some(Built { bytes, expected, n_ch })
+    let bytes16 = (c.alpha_bits <= 12).then(|| {
+        let mut img16 = img.clone();
+        img16.modular_16bit_buffers = true;
+        write_codestream(&img16, &Sel::default(), &frames_bytes)
+    });
+    Some(Built { bytes, bytes16, expected, n_ch })
 }
 
 pub fn run_patch(c: &PatchCfg) -> Option<Result<usize, (String, String)>> {
@@ -628,7 +653,7 @@ pub fn main(args: &crate::Args) {
     rep.extra.insert("patch_deviation_cases".into(), json!(n_pdev));
     rep.extra.insert("patch_full_product_cases".into(), json!(ptapes.len() - n_pdev));
     rep.extra.insert("patch_not_applicable".into(), json!(pskipped));
-    rep.rule = format!("canvas 5x4, lossless non-XYB Modular frames, RGB + alpha (+ a second extra channel); configuration = image dims (premultiplied/straight alpha, alpha depth 8/16 vs colour depth 8/12, second extra channel) + up to {max_frames} frames each with (type Regular/ReferenceOnly/SkipProgressive, duration 0/1, save slot 0-3, 5 blend modes, source slot 0-3, clamp, 9 crop kinds incl. every edge / wholly outside / larger than canvas, 3 extra-channel blend variants, 3 sample patterns) + keyframe request order (forward, reverse, twice): ALL configurations within {bound} deviations of the default, plus the FULL PRODUCT for two frames over (mode0, save0, duration0, crop0) x (mode1, source1, crop1) x premultiplied; oracle: jxlw::model::composite (per-channel blend rules applied in bitstream order on reference slots) within 1e-5. PATCHES: on an 8x6 canvas a reference frame (ReferenceOnly 5x4, ReferenceOnly canvas-sized, or zero-duration Regular; slot 0-3) followed by a frame whose patch dictionary (written by jxlw::patches, prefix or ANS coded) copies 1-2 source rectangles (5 kinds incl. edge-touching and whole reference) to 1-2 targets (origin, inner, far corner; second target by negative/positive delta) with colour mode 0-7, alpha-channel mode (same/None/Replace/Add), second-extra-channel mode (same/None/Mul), clamp, one or two alpha channels (premultiplied / straight, 8/16 bit) and the alpha channel chosen, on a full or cropped frame (3 crops incl. partly outside the canvas) that is then blended (Replace/Blend/Add): ALL configurations within {bound} deviations plus the FULL PRODUCT premultiplied x reference kind x 8 colour modes x 4 alpha modes x 3 EC modes x clamp x alpha channels x frame blend; oracle jxlw::patches::apply_patches then composite. VARDCT: two YCbCr / RGB VarDCT frames (2 sizes, with and without Gabor + EPF), the second blended (Add) onto slot 0-3 holding the first: the composite must equal the blend rule applied to the two frames rendered on their own. Non-trivial = decodes and matches with >= 1 keyframe; distinct by tape.");
+    rep.rule = format!("canvas 5x4, lossless non-XYB Modular frames, RGB + alpha (+ a second extra channel); configuration = image dims (premultiplied/straight alpha, alpha depth 8/16 vs colour depth 8/12, second extra channel) + up to {max_frames} frames each with (type Regular/ReferenceOnly/SkipProgressive, duration 0/1, save slot 0-3, 5 blend modes, source slot 0-3, clamp, 9 crop kinds incl. every edge / wholly outside / larger than canvas, 3 extra-channel blend variants, 4 sample patterns incl. negative and above-range colour samples) + keyframe request order (forward, reverse, twice): ALL configurations within {bound} deviations of the default, plus the FULL PRODUCT for two frames over (mode0, save0, duration0, crop0) x (mode1, source1, crop1) x premultiplied; oracle: jxlw::model::composite (per-channel blend rules applied in bitstream order on reference slots) within 1e-5. PATCHES: on an 8x6 canvas a reference frame (ReferenceOnly 5x4, ReferenceOnly canvas-sized, or zero-duration Regular; slot 0-3) followed by a frame whose patch dictionary (written by jxlw::patches, prefix or ANS coded) copies 1-2 source rectangles (5 kinds incl. edge-touching and whole reference) to 1-4 targets (origin, inner, far corner; further targets by negative/positive deltas from the preceding one) with colour mode 0-7, alpha-channel mode (same/None/Replace/Add), second-extra-channel mode (same/None/Mul), clamp, one or two alpha channels (premultiplied / straight, 8/16 bit) and the alpha channel chosen, on a full or cropped frame (3 crops incl. partly outside the canvas) that is then blended (Replace/Blend/Add): ALL configurations within {bound} deviations plus the FULL PRODUCT premultiplied x reference kind x 8 colour modes x 4 alpha modes x 3 EC modes x clamp x alpha channels x frame blend; oracle jxlw::patches::apply_patches then composite. VARDCT: two YCbCr / RGB VarDCT frames (2 sizes, with and without Gabor + EPF), the second blended (Add) onto slot 0-3 holding the first: the composite must equal the blend rule applied to the two frames rendered on their own. Non-trivial = decodes and matches with >= 1 keyframe; distinct by tape.");
     for i in [n_dev / 2, tapes.len() - 1] {
         let mut t = Tape::from_answers(&tapes[i]);
         let c = cfg_from(&mut t, max_frames);
